@@ -291,6 +291,28 @@ def stability(ctx, aotools, nx, ps, r0, L0, ncol, rng, long_rows):
     ctx.check(scr2.scrn.shape == (nx, nx), "shape_after_many_rows", "shape %s after %d rows" % (scr2.scrn.shape, long_rows), wit)
 
 
+def long_history_wide_screen(ctx, aotools, rng, nx, steps):
+    """A wide screen (megabytes per frame) stepped more often than it has rows: buffer management that is renewed every few MiB of
+    rows must still give exactly one row per step."""
+    scr = aotools.PhaseScreenVonKarman(nx, 0.05, 0.2, 30.0, random_seed=int(rng.integers(0, 2 ** 31)), n_columns=1)
+    wit = {"variant": "vk", "requested_size": nx, "steps": steps, "n_columns": 1}
+    ctx.case("history:wide_screen", key=("wide", nx, steps), nontrivial=True, sample=wit)
+    prev = np.array(scr.scrn, copy=True)
+    for k in range(steps):
+        scr.add_row()
+        cur = np.asarray(scr.scrn)
+        ctx.count("shift_checks")
+        ctx.count("ops:add_row")
+        if not ctx.check(cur.shape == (nx, nx), "shape_after_add_row:vk:wide_screen", "exposed shape %s after %d rows" % (cur.shape, k + 1), wit):
+            return
+        if not ctx.check(np.array_equal(cur[1:], prev[:-1]), "shift_by_one_row:vk:wide_screen",
+                         "after add_row #%d of a %d-pixel screen the old rows are not the previous screen shifted down by exactly one" % (k + 1, nx), wit):
+            return
+        if k % 64 == 0:
+            ctx.check(bool(np.isfinite(cur[0]).all()), "nonfinite", "non-finite value after %d rows" % (k + 1), wit)
+        prev = np.array(cur, copy=True)
+
+
 def fine_scale_statistics(ctx, aotools, rng, rows, finest=False):
     """Statistical monitor of "the statistics converge to the model and stay there" at the finest scale the screen has: the
     variance of the second difference along each newly added row, E[(x[j-1] - 2 x[j] + x[j+1])^2] = 4 D(p) - D(2p), carried by the
@@ -353,6 +375,10 @@ def run(ctx, spec):
     stability(ctx, aotools, int(rng.integers(5, 14)), psw, psw * float(10 ** rng.uniform(4.5, 7)), psw * float(10 ** rng.uniform(1.5, 3)), int(rng.integers(1, 3)), rng, 200)
     # one long run of nothing but add_row on a small screen (several hundred rows: block-wise bookkeeping must not repeat)
     history(ctx, aotools, "vk" if spec["shard"] % 2 else "fried", int(rng.integers(4, 9)), 0.05, 0.2, 20.0, 1, rng, 650, all_add=True)
+    if spec["shard"] == 5:
+        long_history_wide_screen(ctx, aotools, rng, 512, 1700)
+    if spec["shard"] == 9:
+        long_history_wide_screen(ctx, aotools, rng, 1024, 1100)
     for s in range(max(1, spec["stab"] // 4)):
         fine_scale_statistics(ctx, aotools, rng, 3000 if spec["stab"] <= 1 else 6000, finest=(s == 0 and spec["shard"] % 4 == 0))
     for s in range(spec["stab"]):
